@@ -238,7 +238,7 @@ theorem zipAllR_map (msgs : List RouteMsg) : zipAllR msgs (msgs.map mkRoute) = t
   | nil => rfl
   | cons m ms ih =>
     have : routeOf m (mkRoute m) = true := by
-      unfold routeOf mkRoute prefMedium; cases m.pref <;> simp
+      unfold routeOf mkRoute Model.Addresser.prefMedium; cases m.pref <;> simp
     simp [zipAllR, this, ih]
 
 /-- The model meets the oracle that the check evaluates on the real `routesByIndex`. -/
@@ -449,7 +449,7 @@ theorem holds_model_routes_doc (msgs : List RouteMsg) (failed : Bool) :
 theorem default_route_witness :
     let d : RouteMsg := { dst := IP.zero, dlen := 0, oif := 1, dstAbsent := true }
     routesByIndex ([d].map (normRoute true)) false =
-      .ok [{ pfx := { addr := v6Unspecified, bits := 0 }, index := 1, preference := prefMedium }] ∧
+      .ok [{ pfx := { addr := v6Unspecified, bits := 0 }, index := 1, preference := Model.Addresser.prefMedium }] ∧
     routesByIndex ([d].map (normRoute false)) false = .panic ∧
     Spec.C13Addresser.holdsRoutesDoc [d] false .panic = false ∧
     Spec.C13Addresser.defaultRouteClass [d] false .panic = true := by
